@@ -41,6 +41,30 @@ Xml::Xml(const String& tag, const Map<>& attrs, const String& val) : NodeBase(ne
 	_()->children << XmlText(val);
 }
 
+Xml::_Xml::~_Xml()
+{
+	// Release the descendants iteratively. Letting each level destroy the next one recursed once per
+	// nesting level and exhausted the call stack on deeply nested documents.
+	if (children.length() == 0)
+		return;
+	Array<Xml> pending;
+	for (int i = 0; i < children.length(); i++)
+		pending << children[i];
+	children = Array<Xml>();
+	while (pending.length() > 0)
+	{
+		Xml e = pending.last();
+		pending.resize(pending.length() - 1);
+		if (e._p->rc == 1 && e.numChildren() > 0) // this is the last handle: take over its children
+		{
+			_Xml* x = e._();
+			for (int i = 0; i < x->children.length(); i++)
+				pending << x->children[i];
+			x->children = Array<Xml>();
+		}
+	}
+}
+
 Xml::_Xml* Xml::_Xml::clone(bool detach) const
 {
 	(void)detach;
